@@ -853,6 +853,11 @@ def emit_float_add_params(repo, frags):
             fail("rnd_precision_%s_gen" % tag, "rnd_precision is not `self.precision + is_sub as usize`")
         m = re.search(r"self\.is_limited\(\)\s*&&\s*%s\s*\+\s*(\d+)\s*<\s*ediff\s*&&\s*%s\s*\+\s*(\d+)\s*\+\s*rnd_precision\s*<\s*%s\s*\+\s*ediff"
                       % (small_est, small_est, big), body)
+        if not m:
+            # shape since /repo abdd8e0: the second comparison is formed in u128 so that it cannot overflow
+            # (same meaning on Z):  && ((est + 1 + rnd_precision) as u128) < big as u128 + ediff as u128
+            m = re.search(r"self\.is_limited\(\)\s*&&\s*%s\s*\+\s*(\d+)\s*<\s*ediff\s*&&\s*\(\s*\(\s*%s\s*\+\s*(\d+)\s*\+\s*rnd_precision\s*\)\s*as\s+u128\s*\)\s*<\s*%s\s+as\s+u128\s*\+\s*ediff\s+as\s+u128"
+                          % (small_est, small_est, big), body)
         if m:
             put("far_cond_%s_gen" % tag,
                 "Definition far_cond_%s_gen (est ediff rp big : Z) : bool := (est + %s <? ediff) && (est + %s + rp <? big + ediff)."
@@ -1126,9 +1131,11 @@ def main():
                 merged = txt
                 for m in re.finditer(r"\(\* UNPARSED (\w+)", txt):
                     nm = m.group(1)
-                    om = re.search(r"Definition %s\b.*?\.\n\n" % nm, old, flags=re.S)
+                    # the previous definition ends at the first ".\n" that is followed by a blank line, a comment, the next
+                    # definition or the end of the file (it need not be followed by a blank line)
+                    om = re.search(r"Definition %s\b.*?\.\n(?=\n|\(\*|Definition|\Z)" % nm, old, flags=re.S)
                     if om:
-                        merged = merged.replace(m.group(0), "(* STALE copy kept *)\n" + om.group(0) + "(* UNPARSED " + nm)
+                        merged = merged.replace(m.group(0), "(* STALE copy kept *)\n" + om.group(0) + "\n(* UNPARSED " + nm)
                 txt = merged
             with open(p, "w") as f:
                 f.write(txt)
